@@ -556,15 +556,15 @@ def main(chk):
     chk.cov["rule"] = (
         "implementation: %d hand-written base programs x EVERY line break x padding of 0..5 extra bytes and of total size "
         "1020..1030, 2040..2056, 3066..3078, 4088..4104 (9 shapes rotated: newlines, spaces before/after, tabs, one long comment, "
-        "comment lines, blank lines with blanks, CR LF, mixed) x reader chunk sizes 1,2,3,7,1023,1024,2047,2048,2049,whole "
+        "comment lines, blank lines with blanks, CR LF, mixed) x reader chunk sizes 1,2,3,5,7,1023,1024,2047,2048,2049,4095,4096,4097,whole "
         "(+ last-read-with-EOF and random schedules on a fifth/seventh of the texts); sampled line breaks of native/*.pangaea and "
         "example/*.pangaea (%d files classified); every program unchanged through every chunking; tokens (string, raw string with and "
         "without line ends, comment, final comment, identifier, identifier?, private identifier, embedded string) of the lengths "
         "1..32, powers of two, 1000..1040, 2030..2060, 3060..3085, 4085..4110, every 250 up to 5000 (quick: about every second) at two "
-        "offsets x the ten chunkings; seeded random tail (1-3 breaks padded at once, sizes up to 5000, random schedules). "
+        "offsets x the %d chunkings; seeded random tail (1-3 breaks padded at once, sizes up to 5000, random schedules). "
         "Coq side: matcher strings (padding shapes x sizes x 15 followers, long-token shapes incl. unterminated/escaped, seeded fragment "
         "strings) and lexer runs (token sequences x schedules). non-trivial: padding/token larger than one byte, resp. a string on "
-        "which some pattern matches, resp. a stream of more than one token; distinct by the full case key." % (len(BASES), nrepo))
+        "which some pattern matches, resp. a stream of more than one token; distinct by the full case key." % (len(BASES), nrepo, len(CHUNKS)))
     chk.cov["trusted_base"] += [
         "hand-written matchers coq/Lex/LayoutTok.v for RET, MULTILINE_ADD_CHAIN, MULTILINE_MAIN_CHAIN, BACKQUOTE_STR, HEAD_STR_PIECE, "
         "DOUBLEQUOTE_STR, IDENT, PRIVATE_IDENT, tied by vm_compute comparison with Go's regexp on the pattern text read from the "
